@@ -506,6 +506,13 @@ class StmtMixin:
                     val = ("unk", "%s@loop%d" % (n.target.id, loop_id))      # the name it keeps after the loop
                 for _ in self.assign(n.target, val, bs, fx, n):
                     pass
+                if isinstance(it, tuple) and it[:2] == ("call", ("builtin", "range")) and 1 <= len(it[2]) <= 2 and isinstance(n.target, ast.Name):
+                    # for i in range([a,] b): inside the body a <= i < b
+                    lo = it[2][0] if len(it[2]) == 2 else ("const", 0)
+                    hi = it[2][-1]
+                    for t in (("cmp", "<", val, hi), ("cmp", ">=", val, lo)):
+                        bs.conds = bs.conds + (Cond(t, True, fx.func.file, n.lineno, "%s in %s" % (n.target.id, ast.unparse(n.iter))),)
+                        self.assume(t, True, bs)
                 return None
             yield from self._loop_region(n, s, fx, "for", {"iter": it, "target": ast.unparse(n.target)}, bind)
 
